@@ -426,6 +426,9 @@ def run(S):
     rule_fslot(S)
     from checks.C13 import rule_atom
     rule_atom(S)
+    # fin drains the GC queues only after the threads that fill them are joined (shared with C16)
+    from checks.C16 import rule_fin
+    rule_fin(S)
     rule_drain(S)
     rule_destroy(S)
     rule_root(S)
